@@ -62,7 +62,8 @@ def w_symbolic(prop, cid, tier, findings, q):
                 if k == "mismatch":
                     out.setdefault("crosscheck_mismatch", []).append(pr.crosscheck)
         for name, a in res.obligations.items():
-            o = {"status": a["status"], "paths": a["paths"], "why": sorted(a["why"])[:3], "refutations": []}
+            o = {"status": a["status"], "paths": a["paths"], "why": sorted(a["why"])[:3], "refutations": [],
+                 "sat": bool(a.get("sat")), "model": a.get("model", "")}
             for ob in a["refutations"][:3]:
                 o["refutations"].append({"inputs": {k: api.encode_value(v) for k, v in (ob.get("inputs") or {}).items()},
                                          "inputs_repr": ob.get("inputs_repr"), "confirmed": ob.get("confirmed"),
@@ -199,7 +200,8 @@ def main():
             tasks.append((("sym", c.id), w_symbolic, (prop, c.id, tier, findings)))
     res = run_tasks(tasks, nproc, timeout_s=(330 if tier == "quick" else 1800))
     from pyvc.report import summarise
-    rc = summarise(prop, tier, seed, contracts, grps, findings, res, time.time() - t0)
+    rc = summarise(prop, tier, seed, contracts, grps, findings, res, time.time() - t0,
+                   write_baseline="--write-baseline" in a)
     return rc
 
 
